@@ -369,7 +369,10 @@ func ruleScale(c *Ctx) {
 					sts, _, _ := storesTo(a)
 					for _, st := range sts {
 						if ld, ok := st.Val.(*ssa.UnOp); ok && ld.X == ssa.Value(base) {
-							copied = true
+							copied = true // a copy of the plain struct
+						}
+						if st.Val == ssa.Value(base) {
+							copied = true // or a pointer to it
 						}
 					}
 				}
